@@ -74,6 +74,12 @@ func genC05(t *rapid.T) *C05Case {
 		c.W = GenWorld(t, GenCfg{Admin: true, NoNamedRisk: true})
 	case 2:
 		c.W = GenIngressWorld(t, true)
+		if rapid.IntRange(0, 3).Draw(t, "reservedpod") == 0 {
+			// a real pod that carries the very name and namespace the tool gives its fake Ingress source
+			kindR := rapid.SampledFrom([]string{"Pod", "Pod", "Deployment"}).Draw(t, "reservedkind")
+			c.W.Namespaces = append(c.W.Namespaces, Ns{Name: "ingress-controller-ns", HasObject: rapid.Bool().Draw(t, "reservednsobj")})
+			c.W.Workloads = append(c.W.Workloads, Workload{Ns: "ingress-controller-ns", Name: "ingress-controller", Kind: kindR, Replicas: 1, Labels: map[string]string{"app": "x1"}})
+		}
 	default:
 		c.W = GenWorld(t, GenCfg{NoNamedRisk: true, OmitNs: true})
 		c.Exposure = rapid.Bool().Draw(t, "exposure")
